@@ -3,10 +3,11 @@ from __future__ import annotations
 
 import ast
 
-from ..loops import dotted, find_env_loop
+from ..loops import dotted, find_env_loop, strip_wrappers
 from ..nf import NF, Scope, Poly, parse_expr
 from ..repo import Repo, loc, short, AnalysisError, positional_params, param_names, bind_call
-from ..sem import OrderModel, Unknown, order_formula, eval_order_formula, guard_literals, result_position, result_position_def
+from ..sem import OrderModel, Unknown, order_formula, eval_order_formula, guard_literals, result_position, result_position_def, whole_result, _split2
+from ..specialise import load_signatures
 from ..sympath import enumerate_paths, PathEval
 
 EXPLANATION = (
@@ -118,7 +119,7 @@ def _assess_table(ck, repo, nf):
                 ck.need(n.ast.value is not None, f"{AQ}: bare return")
                 rv = n.ast.value
                 if isinstance(rv, ast.Tuple) and len(rv.elts) == 2:
-                    flag_f = order_formula(nf, rv.elts[0], pe.scope(), names)
+                    flag_f = order_formula(nf, strip_wrappers(rv.elts[0]), pe.scope(), names)      # `bool(flag)` is the flag
                     ret = (flag_f, pe.ev(rv.elts[1]))
                 else:
                     val = pe.ev(rv)
@@ -245,33 +246,129 @@ def _trip_count(cfg, nf, mi, lp, qual):
         if not (isinstance(it, ast.Call) and dotted(it.func) == "range" and not it.keywords and 1 <= len(it.args) <= 3):
             raise AnalysisError(f"{qual}: release loop iterates over `{short(it, 50)}` (unrecognised form)")
         a = [nf.poly(x, sc, None) for x in it.args]
-        if len(a) == 3 and a[2].canon() != "1":
-            return None
+        if len(a) == 3:
+            # counting up or down by one; another stride is not a form whose trip count is read
+            if not (a[2].is_const() and abs(a[2].const_value()) == 1):
+                raise AnalysisError(f"{qual}: release loop iterates over `{short(it, 50)}` with a stride other than +-1 (unrecognised form)")
+            return a[1] - a[0] if a[2].const_value() == 1 else a[0] - a[1]
         return a[0] if len(a) == 1 else a[1] - a[0]
     t = lp.ast.test
     if not (isinstance(lp.ast, ast.While) and isinstance(t, ast.Compare) and len(t.ops) == 1 and isinstance(t.ops[0], (ast.Lt, ast.Gt, ast.LtE, ast.GtE))):
         raise AnalysisError(f"{qual}: release loop condition `{short(t, 50)}` (unrecognised form)")
-    l, r = t.left, t.comparators[0]
-    if isinstance(t.ops[0], (ast.Gt, ast.GtE)):
-        l, r = r, l
-    if not isinstance(l, ast.Name):
-        raise AnalysisError(f"{qual}: release loop condition `{short(t, 50)}` (unrecognised form)")
     lbody = cfg.loop_body_nodes(lp.id)
+    sides = (t.left, t.comparators[0])
+    # the counter is the side of the comparison that the loop body updates; the other side is the bound
+    cnt = [x for x in sides if isinstance(x, ast.Name) and any(d.name == x.id for m in cfg.nodes if m.id in lbody for d in m.defs)]
+    if len(cnt) != 1:
+        raise AnalysisError(f"{qual}: release loop condition `{short(t, 50)}` (unrecognised form)")
+    l = cnt[0]
+    r = sides[1] if l is sides[0] else sides[0]
+    up = isinstance(t.ops[0], (ast.Lt, ast.LtE)) == (l is sides[0])       # counter < bound (counting up) or counter > bound (counting down)
     inside, outside = [], []
     for d in cfg.defs_of(lp.id, l.id):
         (inside if d.node in lbody else outside).append(d)
-    ok_in = inside and all(isinstance(cfg.nodes[d.node].ast, ast.AugAssign) and isinstance(cfg.nodes[d.node].ast.op, ast.Add) and isinstance(cfg.nodes[d.node].ast.value, ast.Constant) and cfg.nodes[d.node].ast.value.value == 1 for d in inside)
-    ok_out = len(outside) == 1 and outside[0].kind == "assign" and isinstance(outside[0].value, ast.Constant) and isinstance(outside[0].value.value, int)
-    bound_names = {x.id for x in ast.walk(r) if isinstance(x, ast.Name)}
-    rebinds = any(d.name in bound_names for m in cfg.nodes if m.id in lbody for d in m.defs)
-    if not (ok_in and ok_out) or rebinds or not _once_per_iteration(cfg, lp.id, [d.node for d in inside]):
+    ok_in = inside and all(_delta(cfg.nodes[d.node].ast, d, l.id) == (1 if up else -1) for d in inside)
+    ok_out = len(outside) == 1 and outside[0].kind == "assign" and outside[0].value is not None
+    fixed = {x.id for e in ((r, outside[0].value) if ok_out else (r,)) for x in ast.walk(e) if isinstance(x, ast.Name)}
+    rebinds = any(d.name in fixed for m in cfg.nodes if m.id in lbody for d in m.defs)
+    # the start value is read where the counter is initialised: its variables must still hold the same values at the loop
+    rd = cfg.reaching()
+    moved = ok_out and any(rd[outside[0].node].get(x) != rd[lp.id].get(x) for x in fixed if x != l.id)
+    if not (ok_in and ok_out) or rebinds or moved or l.id in fixed or not _once_per_iteration(cfg, lp.id, [d.node for d in inside]):
         raise AnalysisError(f"{qual}: counting loop `while {short(t, 50)}` (unrecognised form)")
-    n_ = nf.poly(r, sc, None) - Poly.const(outside[0].value.value)
+    start, bound = nf.poly(outside[0].value, sc, None), nf.poly(r, sc, None)
+    n_ = bound - start if up else start - bound
     return n_ + Poly.const(1) if isinstance(t.ops[0], (ast.LtE, ast.GtE)) else n_
 
 
+def _delta(s, d, name: str):
+    """The number a definition adds to the old value of ``name`` (`name += 1`, `name = name - 1`, ...), None when it is not such an update."""
+    inc = _increment(s, d, name)
+    if inc is not None:
+        return _num(strip_wrappers(inc))
+    sub = None
+    if d.kind == "aug" and isinstance(s.op, ast.Sub):
+        sub = s.value
+    elif d.kind == "assign" and isinstance(d.value, ast.BinOp) and isinstance(d.value.op, ast.Sub) and isinstance(d.value.left, ast.Name) and d.value.left.id == name:
+        sub = d.value.right
+    v = _num(strip_wrappers(sub)) if sub is not None else None
+    return None if v is None else -v
+
+
+def _current_param(fn, qual: str, recorded: str):
+    """Present name of the parameter that the recorded signature of ``qual`` calls ``recorded``: that name while it exists, else the name
+    now standing at its recorded position (a renamed parameter, the recorded prefix before it unchanged); None when the signature was reshaped."""
+    cur = param_names(fn)
+    if recorded in cur:
+        return recorded
+    rec = load_signatures().get(qual) or []
+    if recorded in rec:
+        i = rec.index(recorded)
+        if i < len(cur) and cur[i] not in rec and all(cur[j] == rec[j] or cur[j] not in rec for j in range(i)):
+            return cur[i]
+    return None
+
+
+def _same_number(text, value) -> bool:
+    """The source text of a literal denotes the number ``value``."""
+    try:
+        return float(ast.literal_eval(str(text))) == float(value)
+    except (ValueError, SyntaxError, TypeError):
+        return False
+
+
+def _param_source(cfg, e, at: int, depth: int = 0):
+    """('param', name) when the expression hands a parameter of the routine through unchanged (value-transparent wrappers and
+    single-definition copies followed), ('const', value) for a numeric literal, else None (not read)."""
+    e = strip_wrappers(e)
+    if isinstance(e, ast.Constant) and isinstance(e.value, (int, float)) and not isinstance(e.value, bool):
+        return ("const", e.value)
+    if not isinstance(e, ast.Name) or depth > 4:
+        return None
+    ds = cfg.defs_of(at, e.id)
+    if len(ds) != 1:
+        return None
+    if ds[0].kind == "param":
+        return ("param", e.id)
+    if ds[0].kind == "assign" and ds[0].value is not None:
+        return _param_source(cfg, ds[0].value, ds[0].node, depth + 1)
+    return None
+
+
+def _increment(s, d, name: str):
+    """The expression a definition adds to the old value of ``name`` (`name += e`, `name = name + e`, `name = e + name`), or None."""
+    if d.kind == "aug":
+        return s.value if isinstance(s.op, ast.Add) else None
+    if d.kind == "assign" and isinstance(d.value, ast.BinOp) and isinstance(d.value.op, ast.Add):
+        l, r = d.value.left, d.value.right
+        if isinstance(l, ast.Name) and l.id == name:
+            return r
+        if isinstance(r, ast.Name) and r.id == name:
+            return l
+    return None
+
+
+def _stored_value(d):
+    """The expression a plain definition stores (`x = e`, `x, y = e1, e2`), or None."""
+    if d.kind == "assign":
+        return d.value
+    if d.kind == "unpack" and isinstance(d.value, (ast.Tuple, ast.List)) and len(d.path) == 1 and isinstance(d.path[0], int) and d.path[0] < len(d.value.elts):
+        return d.value.elts[d.path[0]]
+    return None
+
+
+def _num(e):
+    """Value of a numeric literal (also negated), else None."""
+    if isinstance(e, ast.UnaryOp) and isinstance(e.op, ast.USub):
+        v = _num(e.operand)
+        return None if v is None else -v
+    if isinstance(e, ast.Constant) and isinstance(e.value, (int, float)) and not isinstance(e.value, bool):
+        return e.value
+    return None
+
+
 def _role_of_counter(cfg, L, name: str, body: set):
-    """Classify a loop variable by its update statements inside the loop: 'steps' (+= 1 / = 0), 'return' (+= reward / = 0), else None."""
+    """Classify a loop variable by its update statements inside the loop: 'steps' (old + 1 / = 0), 'return' (old + reward / = 0), else None."""
     kinds = set()
     for n in cfg.nodes:
         if n.id not in body:
@@ -279,23 +376,126 @@ def _role_of_counter(cfg, L, name: str, body: set):
         for d in n.defs:
             if d.name != name:
                 continue
-            s = n.ast
-            if d.kind == "aug" and isinstance(s.op, ast.Add):
-                if isinstance(s.value, ast.Constant) and s.value.value == 1:
+            inc = _increment(n.ast, d, name)
+            if inc is not None:
+                inc = strip_wrappers(inc)
+                if _num(inc) == 1:
                     kinds.add("inc1")
-                elif isinstance(s.value, ast.Name) and s.value.id == L.pos.get(1):
+                elif isinstance(inc, ast.Name) and inc.id == L.pos.get(1):
                     kinds.add("addreward")
                 else:
                     kinds.add("other")
-            elif d.kind == "assign" and isinstance(d.value, ast.Constant) and d.value.value in (0, 0.0) and not isinstance(d.value.value, bool):
-                kinds.add("zero")
-            else:
-                kinds.add("other")
+                continue
+            v = _stored_value(d)
+            kinds.add("zero" if v is not None and _num(v) == 0 else "other")
     if kinds == {"inc1", "zero"}:
         return "steps"
     if kinds == {"addreward", "zero"}:
         return "return"
     return None
+
+
+def _depends_on(cfg, e, at: int, names: set, depth: int = 0) -> bool:
+    """The expression reads one of ``names``, directly or through the definitions of the variables it reads."""
+    for x in ast.walk(e):
+        if isinstance(x, ast.Name):
+            if x.id in names:
+                return True
+            if depth < 3:
+                for d in cfg.defs_of(at, x.id):
+                    if d.value is not None and d.node != at and _depends_on(cfg, d.value, d.node, names, depth + 1):
+                        return True
+    return False
+
+
+def _reads_call(cfg, e, at: int, call, state_names: set, depth: int = 0) -> bool:
+    """The expression depends on the result of ``call`` or reads the object the call updates in place."""
+    for x in ast.walk(e):
+        if x is call:
+            return True
+        if isinstance(x, ast.Name):
+            if x.id in state_names:
+                return True
+            if depth < 4:
+                for d in cfg.defs_of(at, x.id):
+                    if d.value is not None and d.node != at and _reads_call(cfg, d.value, d.node, call, state_names, depth + 1):
+                        return True
+    return False
+
+
+def _strip_truth(e):
+    """`x is True`, `x == True`, `x is not False`, `x != False`, `bool(x)` -> x."""
+    while True:
+        e = strip_wrappers(e)
+        if isinstance(e, ast.Compare) and len(e.ops) == 1 and isinstance(e.comparators[0], ast.Constant) and isinstance(e.comparators[0].value, bool):
+            op, k = e.ops[0], e.comparators[0].value
+            if (isinstance(op, (ast.Is, ast.Eq)) and k is True) or (isinstance(op, (ast.IsNot, ast.NotEq)) and k is False):
+                e = e.left
+                continue
+        return e
+
+
+def _provenance(cfg, e, at: int, call):
+    """How a guard operand relates to the result of ``call``: (positions of the result its definitions hold, all other definitions are
+    falsy constants?, CFG nodes of its definitions); None when the operand is not a variable / constant subscript of a variable."""
+    idx = None
+    if isinstance(e, ast.Subscript) and isinstance(e.value, ast.Name) and isinstance(e.slice, ast.Constant) and isinstance(e.slice.value, int):
+        e, idx = e.value, e.slice.value
+    if not isinstance(e, ast.Name):
+        return None
+    positions, plain, nodes = set(), True, set()
+    for d in cfg.defs_of(at, e.id):
+        nodes.add(d.node)
+        if idx is None:
+            pos = _origin_def(cfg, d, call)
+        else:
+            whole = d.kind == "assign" and (d.value is call or (isinstance(d.value, ast.Name) and whole_result(cfg, d.value.id, d.node) is call))
+            pos = idx if whole else None
+        if pos is not None:
+            positions.add(pos)
+        elif not (idx is None and isinstance(_stored_value(d), ast.Constant) and _stored_value(d).value in (False, None, 0)):
+            plain = False
+    return positions, plain, nodes
+
+
+def _sign_for_positive(op, diff: Poly, atom: str):
+    """Truth value of `diff <op> 0` for every integer value >= 1 of ``atom`` when diff == +-atom + constant; None when it depends on the value."""
+    a = Poly.atom(atom)
+    if (diff - a).is_const():
+        c = (diff - a).const_value()
+    elif (diff + a).is_const():
+        c, diff = -(diff + a).const_value(), None
+        op = {ast.Lt: ast.Gt, ast.Gt: ast.Lt, ast.LtE: ast.GtE, ast.GtE: ast.LtE}.get(type(op), type(op))()
+    else:
+        return None
+    lo = 1 + c       # smallest value of atom + c; unbounded above
+    if isinstance(op, ast.Gt):
+        return True if lo > 0 else None
+    if isinstance(op, ast.GtE):
+        return True if lo >= 0 else None
+    if isinstance(op, ast.Lt):
+        return False if lo >= 0 else None
+    if isinstance(op, ast.LtE):
+        return False if lo > 0 else None
+    if isinstance(op, ast.Eq):
+        return False if lo > 0 else None
+    if isinstance(op, ast.NotEq):
+        return True if lo > 0 else None
+    return None
+
+
+def _trip_leaves(cfg, name: str, at: int, call, aliases: dict, depth: int = 0):
+    """Definitions that decide the value of the trip variable at ``at``: plain copies of another variable (also through int()) are followed to
+    the definitions of that variable.  Yields (definition, variable it defines, node where that variable is read)."""
+    out = []
+    aliases.setdefault(name, at)
+    for d in cfg.defs_of(at, name):
+        src = strip_wrappers(d.value) if d.kind == "assign" and d.value is not None else None
+        if isinstance(src, ast.Name) and depth < 4 and src.id != name and result_position_def(cfg, d) is None:
+            out += _trip_leaves(cfg, src.id, d.node, call, aliases, depth + 1)
+        else:
+            out.append((d, name, at))
+    return out
 
 
 def _td7_loop(ck, repo, nf, afn):
@@ -309,35 +509,68 @@ def _td7_loop(ck, repo, nf, afn):
     n, c = calls[0]
     body = cfg.loop_body_nodes(L.outer_header)
     b = bind_call(afn, c)
+    params_t = set(param_names(fn))
+    # the documented options of train_td7, by their place in the recorded signature (a renamed parameter keeps its role)
+    UC, LS = _current_param(fn, TQ, "use_checkpoints"), _current_param(fn, TQ, "learning_starts")
+    uc_true = {UC: True} if UC else {}
+    at_default = {p: d for q, p, d in (getattr(repo, "specialised", None) or []) if q == TQ}     # options the specialise pass replaced by their defaults
     # ---- argument roles -------------------------------------------------------------------------------------------------------
-    a_spe, a_ret, a_epoch = b.get(SPE), b.get(RET), b.get(EPOCH)
+    a_spe, a_ret, a_epoch = (strip_wrappers(x) if x is not None else None for x in (b.get(SPE), b.get(RET), b.get(EPOCH)))
     for role, arg, wantk in (("steps_per_episode", a_spe, "steps"), ("episode_return", a_ret, "return")):
         ck.need(isinstance(arg, ast.Name), f"{TQ}: {role} argument `{short(arg) if arg is not None else None}` is not a variable (unrecognised form)")
         k = _role_of_counter(cfg, L, arg.id, body)
         other = "return" if wantk == "steps" else "steps"
         if k is None:
-            raise AnalysisError(f"{TQ}: cannot classify `{arg.id}` (passed as {role}) by its updates")
+            raise AnalysisError(f"{TQ}: cannot classify `{arg.id}` (passed as {role}) by its updates (unrecognised form)")
         ck.ob("R5-release-loop", TQ, f"argument:{role}", k == wantk, f"{role} <- `{arg.id}` ({k} counter)", "" if k == wantk else f"the {other} counter is passed as {role}: window steps / returns are mixed up", loc(mi, c))
     ck.need(isinstance(a_epoch, ast.Name), f"{TQ}: epoch argument is not a variable (unrecognised form)")
     epoch_var = a_epoch.id
-    params_t = set(param_names(fn))
-    for role, pname in ((RW, RW), (MEWC, MEWC), (SBC, SBC)):
-        arg = b.get(pname)
-        ok = isinstance(arg, ast.Name) and arg.id == pname and pname in params_t
-        ck.ob("R5-release-loop", TQ, f"argument:{role}", ok, f"{role} <- `{short(arg) if arg is not None else None}`", "" if ok else f"the configured `{pname}` must be passed through", loc(mi, c))
+    # the three configured quantities: the argument must be the option of train_td7 documented for that role, handed through unchanged; another
+    # option of the routine or a literal in its place is a different configuration (violation), anything else is not read
+    documented = {RW: "reset_weight", MEWC: "max_episodes_when_checkpointing", SBC: "steps_before_checkpointing"}
+    for role in (RW, MEWC, SBC):
+        arg = b.get(role)
+        want_p = _current_param(fn, TQ, documented[role])
+        src = _param_source(cfg, arg, n.id) if arg is not None else None
+        if src is not None and src[0] == "const":
+            # an option that was added / renamed after the signatures were recorded is read at its default (specialise pass): the literal is that option
+            same = [p for p, d in at_default.items() if _same_number(d, src[1])]
+            if same == [want_p]:
+                src = ("param", want_p)
+            elif same:
+                raise AnalysisError(f"{TQ}: the literal `{short(arg)}` passed for `{role}` is the default of the option(s) {same}, which are read at their defaults (unrecognised form)")
+        if arg is None or src is None or want_p is None:
+            raise AnalysisError(f"{TQ}: argument `{short(arg) if arg is not None else None}` for `{role}` of the assessment cannot be traced to an option of the routine (unrecognised form)")
+        ok = src == ("param", want_p)
+        ck.ob("R5-release-loop", TQ, f"argument:{documented[role]}", ok, f"{role} <- `{short(arg)}` ({'option `' + src[1] + '`' if src[0] == 'param' else 'literal ' + repr(src[1])})",
+              "" if ok else f"the configured `{want_p}` must be passed through", loc(mi, c))
     st_arg = b.get(S)
-    st_defs = cfg.defs_of(n.id, st_arg.id) if isinstance(st_arg, ast.Name) else []
-    ok = len(st_defs) == 1 and st_defs[0].node not in body
-    ck.ob("R5-release-loop", TQ, "argument:state", ok, f"state <- `{short(st_arg) if st_arg is not None else None}` (defined once, before the loop)", "" if ok else "the window state must be one object that lives across iterations (re-creating it forgets the collected steps)", loc(mi, c))
+    ck.need(isinstance(st_arg, ast.Name), f"{TQ}: window state argument `{short(st_arg) if st_arg is not None else None}` is not a variable (unrecognised form)")
+    st_defs = cfg.defs_of(n.id, st_arg.id)
+    ck.need(len(st_defs) >= 1, f"{TQ}: no definition of the window state `{st_arg.id}` reaches the assessment (unrecognised form)")
+    st_in = [d for d in st_defs if d.node in body]
+    # evidence of a forgotten window: a definition inside the loop that constructs a fresh state; any other rebinding is not read
+    state_cls = "rl_blox.blox.checkpointing.CheckpointState"
+    if st_in and not all(d.kind == "assign" and isinstance(d.value, ast.Call) and isinstance(d.value.func, (ast.Name, ast.Attribute)) and repo.resolve_expr(mi, d.value.func) == state_cls for d in st_in):
+        raise AnalysisError(f"{TQ}: `{short(cfg.nodes[st_in[0].node].ast, 60)}` rebinds the window state inside the loop (unrecognised form)")
+    ck.ob("R5-release-loop", TQ, "argument:state", not st_in, f"state <- `{short(st_arg)}` ({len(st_defs)} definition(s), {len(st_in)} inside the loop)",
+          "" if not st_in else f"`{short(cfg.nodes[st_in[0].node].ast, 60)}` inside the loop reaches the assessment: the window state must be one object that lives across iterations (re-creating it forgets the collected steps)", loc(mi, c))
     # ---- result positions ---------------------------------------------------------------------------------------------------
     ck.need(isinstance(n.ast, ast.Assign) and n.ast.value is c, f"{TQ}: the assessment result is not assigned (unrecognised form)")
     # ---- the assessment runs exactly at episode ends in checkpoint mode ----------------------------------
     tv, uv = L.pos.get(2), L.pos.get(3)
     ck.need(tv and uv, f"{TQ}: terminated / truncated are discarded")
     for x, y in ((True, False), (False, True), (True, True), (False, False)):
-        p = cfg.paths_avoiding(L.step_node, n.id, {L.step_node}, assume={tv: x, uv: y, "use_checkpoints": True})
+        assume = {tv: x, uv: y, **uc_true}
+        p = cfg.paths_avoiding(L.step_node, n.id, {L.step_node}, assume=assume)
         want_reach = x or y
         ok = (p is not None) == want_reach
+        if p is not None and not want_reach:
+            # the witness counts only when every test on it that reads the episode-end flags was decided (an unread test is followed on both arms)
+            for q in p[:-1]:
+                qn = cfg.nodes[q]
+                if qn.kind == "test" and hasattr(qn.ast, "test") and cfg.eval3(qn.ast.test, dict(assume), q) is None and _depends_on(cfg, qn.ast.test, q, {tv, uv}):
+                    raise AnalysisError(f"{TQ}: the test `{short(qn.ast.test, 60)}` on the way to the assessment reads the episode-end flags in a form that is not evaluated (unrecognised form)")
         ck.ob("R5-release-loop", TQ, f"assessment-at-episode-end:{x},{y}", ok, f"terminated={x}, truncated={y}: assessment {'reachable' if p is not None else 'not reachable'}",
               "" if ok else ("episode ends of this kind are not assessed: their steps are never released" if want_reach else "the assessment also runs inside an episode: the episode is counted several times"), loc(mi, c),
               cfg.describe_path(p) if (p is not None and not want_reach) else None)
@@ -347,10 +580,12 @@ def _td7_loop(ck, repo, nf, afn):
         names_g = set(_names_in(g))
         if names_g <= {tv, uv}:
             continue
-        if g == "use_checkpoints":
+        if UC is not None and g == UC:
             continue
-        if "learning_starts" in names_g and g.startswith(("Lt(", "LtE(")):
+        if LS is not None and LS in names_g and g.startswith(("Lt(", "LtE(")):
             continue      # warm-up gate (C11 decides it)
+        if LS is not None and LS in at_default and g.startswith(("Lt(", "LtE(")) and _same_number(at_default[LS], _split2(g[g.index("(") + 1:-1])[0]):
+            continue      # the same gate with the (renamed) option read at its default
         extras.append(g)
     definite = [g for g in extras if g.startswith("IsNot(") and (set(_names_in(g)) - {"None"}) <= params_t]
     if extras and not definite:
@@ -365,65 +600,109 @@ def _td7_loop(ck, repo, nf, afn):
     lp = cfg.nodes[next(iter(loops_of))[0]]
     trip = _trip_count(cfg, nf, mi, lp, TQ)
     hdr_txt = f"for ... in {ast.unparse(lp.ast.iter)}" if lp.kind == "for" else f"while {ast.unparse(lp.ast.test)}"
-    tvar = trip.single_atom() if trip is not None else None
-    if trip is None or tvar is None or not tvar.isidentifier():
+    tvar = trip.single_atom()
+    if tvar is None or not tvar.isidentifier():
         ok_trip = False
-        if trip is not None and not (trip.atoms() and all(x.isidentifier() for x in trip.atoms())):
-            raise AnalysisError(f"{TQ}: trip count `{trip.canon()[:60]}` of the release loop not understood")
+        # a violation needs a trip count that is read completely: a polynomial of plain variables other than one variable itself
+        if not (trip.atoms() and all(x.isidentifier() for x in trip.atoms())):
+            raise AnalysisError(f"{TQ}: trip count `{trip.canon()[:60]}` of the release loop not understood (unrecognised form)")
     else:
         ok_trip = True
-    ck.ob("R5-release-loop", TQ, "trip-count", ok_trip, f"{hdr_txt}: {trip.canon() if trip is not None else '?'} iterations", "" if ok_trip else "the release loop must run exactly as many times as the assessment released", loc(mi, lp.ast))
+    ck.ob("R5-release-loop", TQ, "trip-count", ok_trip, f"{hdr_txt}: {trip.canon()} iterations", "" if ok_trip else "the release loop must run exactly as many times as the assessment released", loc(mi, lp.ast))
     if ok_trip:
-        # every definition of the trip variable reaching the loop: position 1 of this step's assessment, or a default that is 0 in checkpoint mode
+        # every definition that decides the trip variable at the loop: position 1 of this step's assessment, or a default that is 0 in checkpoint mode
         n_def = n_res = 0
-        for d in cfg.defs_of(lp.id, tvar):
+        aliases: dict = {}
+        for d, dname, read_at in _trip_leaves(cfg, tvar, lp.id, c, aliases):
             pos = _origin_def(cfg, d, c)
+            d_ast = cfg.nodes[d.node].ast
             if pos is not None:
                 n_res += 1
-                ck.ob("R5-release-loop", TQ, "trip-from-result", pos == 1, f"`{tvar}` holds position {pos} of the assessment result", "" if pos == 1 else "the release loop is driven by the checkpoint flag, not by the number of released steps", loc(mi, cfg.nodes[d.node].ast))
+                ck.ob("R5-release-loop", TQ, "trip-from-result", pos == 1, f"`{dname}` holds position {pos} of the assessment result", "" if pos == 1 else "the release loop is driven by the checkpoint flag, not by the number of released steps", loc(mi, d_ast))
                 continue
             dl = [(t, v) for bnode, lab in cfg.control_deps(d.node) if cfg.nodes[bnode].kind == "test" and isinstance(cfg.nodes[bnode].ast, ast.If) for t, v in cfg._lits(cfg.nodes[bnode].ast.test, lab, bnode)]
-            if ("use_checkpoints", False) in dl:
+            if UC is not None and (UC, False) in dl:
                 continue  # plain mode: outside this property
-            n_def += 1
-            val = _const_under(cfg, d.value, {"use_checkpoints": True}, d.node) if d.kind == "assign" and d.value is not None else None
+            sv = _stored_value(d)
+            val = _const_under(cfg, sv, uc_true, d.node) if sv is not None else None
             if val is None:
-                raise AnalysisError(f"{TQ}: `{short(cfg.nodes[d.node].ast, 60)}` - cannot evaluate the number of released steps in checkpoint mode (unrecognised idiom)")
-            ck.ob("R5-release-loop", TQ, f"default-release:{short(cfg.nodes[d.node].ast, 40)}", val == 0, f"`{short(cfg.nodes[d.node].ast, 60)}` = {val} when use_checkpoints", "" if val == 0 else "in checkpoint mode only the assessment may release training iterations: this default releases steps that the window will release again", loc(mi, cfg.nodes[d.node].ast))
-        ck.ob("R5-release-loop", TQ, "trip-from-result", n_res >= 1, f"{n_res} definition(s) of `{tvar}` come from the assessment", "" if n_res else "the assessment's released step count never reaches the release loop", loc(mi, lp.ast))
-        ck.ob("R5-release-loop", TQ, "default-release", n_def >= 1, f"{n_def} default definition(s) of {tvar} reach the release loop in checkpoint mode", "" if n_def else "no default for steps without an assessment (previous trip count would be reused)", loc(mi, lp.ast))
+                raise AnalysisError(f"{TQ}: `{short(d_ast, 60)}` - cannot evaluate the number of released steps in checkpoint mode (unrecognised idiom)")
+            witness = None
+            if val != 0:
+                # a non-zero default releases steps only if it survives until the loop in checkpoint mode (`n = 1` / `if use_checkpoints: n = 0` does not)
+                others = {o.node for o in cfg.defs_of(read_at, dname)} - {d.node}
+                witness = cfg.paths_avoiding(d.node, read_at, others, assume=uc_true)
+                if witness is None:
+                    continue
+            n_def += 1
+            ck.ob("R5-release-loop", TQ, f"default-release:{short(d_ast, 40)}", val == 0, f"`{short(d_ast, 60)}` = {val} when use_checkpoints", "" if val == 0 else "in checkpoint mode only the assessment may release training iterations: this default releases steps that the window will release again", loc(mi, d_ast),
+                  cfg.describe_path(witness) if witness else None)
+        ck.ob("R5-release-loop", TQ, "trip-from-result", n_res >= 1, f"{n_res} definition(s) of `{tvar}` come from the assessment", "" if n_res else "every definition of the trip count that reaches the release loop in checkpoint mode is a constant: the assessment's released step count never reaches the loop", loc(mi, lp.ast))
+        # a step without an assessment needs a value of its own, unless the loop is only ever reached through the assessment
+        no_default = n_def == 0 and not cfg.dominates(n.id, lp.id)
+        ck.ob("R5-release-loop", TQ, "default-release", not no_default, f"{n_def} default definition(s) of {tvar} reach the release loop in checkpoint mode" + ("" if n_def else " (the loop is only reached through the assessment)"),
+              "" if not no_default else "the release loop is reached without an assessment, but only the assessment defines its trip count: the previous trip count would be reused", loc(mi, lp.ast))
         # the loop is reached from the assessment without the trip variable being rebound (checked by the reaching definitions above) and on every
-        # path: no branch between assessment and loop may skip it
-        skip = cfg.paths_avoiding(n.id, L.step_node, {lp.id}) or cfg.paths_avoiding(n.id, cfg.exit, {lp.id, L.step_node})
+        # path along which steps were released: a branch that skips the loop only when the trip count is not positive skips nothing
+        rd = cfg.reaching()
+        sc0 = Scope(None, mi, {}, TQ)
+
+        def released_facts(x):
+            xn, facts = cfg.nodes[x], {}
+            if not (xn.kind == "test" and hasattr(xn.ast, "test")):
+                return facts
+            for e in ast.walk(xn.ast.test):
+                for nm, read_at in aliases.items():
+                    if rd[x].get(nm) != rd[read_at].get(nm):
+                        continue
+                    if isinstance(e, ast.Name) and e.id == nm:
+                        facts[nm] = True
+                    elif isinstance(e, ast.Compare) and len(e.ops) == 1 and any(isinstance(y, ast.Name) and y.id == nm for y in ast.walk(e)):
+                        try:
+                            v = _sign_for_positive(e.ops[0], nf.poly(e.left, sc0, None) - nf.poly(e.comparators[0], sc0, None), nm)
+                        except AnalysisError:
+                            v = None
+                        if v is not None:
+                            facts[ast.unparse(e)] = v
+            return facts
+        skip = cfg.paths_avoiding(n.id, L.step_node, {lp.id}, at_node=released_facts) or cfg.paths_avoiding(n.id, cfg.exit, {lp.id, L.step_node}, at_node=released_facts)
         if skip is not None:
             # leaving through the episode limit / end of the run is not a skipped release only if nothing was released: cannot be decided structurally
             ck.ob("R5-release-loop", TQ, "release-not-skipped", False, "a path from the assessment to the next step / the exit avoids the release loop", "released training iterations are dropped on this path", loc(mi, lp.ast), cfg.describe_path(skip))
         else:
-            ck.ob("R5-release-loop", TQ, "release-not-skipped", True, "every path from the assessment reaches the release loop", "", loc(mi, lp.ast))
+            ck.ob("R5-release-loop", TQ, "release-not-skipped", True, "every path from the assessment with released steps reaches the release loop", "", loc(mi, lp.ast))
     # one epoch increment and one training step per iteration
     lbody = cfg.loop_body_nodes(lp.id)
+
+    def amount(m):
+        """What the statement adds to the epoch counter: a number, or None (not an update by a literal)."""
+        return _delta(m.ast, next(d for d in m.defs if d.name == epoch_var), epoch_var)
     incs = [m for m in cfg.nodes if m.id in lbody for d in m.defs if d.name == epoch_var]
-    ok_form = all(isinstance(m.ast, ast.AugAssign) and isinstance(m.ast.op, ast.Add) and isinstance(m.ast.value, ast.Constant) and m.ast.value.value == 1 for m in incs)
-    if incs and not ok_form:
-        bad = [m for m in incs if not (isinstance(m.ast, ast.AugAssign) and isinstance(m.ast.op, ast.Add))]
-        if bad:
-            raise AnalysisError(f"{TQ}: `{short(bad[0].ast, 50)}` - update of the epoch counter not understood")
-    once = bool(incs) and ok_form and _once_per_iteration(cfg, lp.id, [m.id for m in incs])
-    ck.ob("R5-release-loop", TQ, "one-epoch-per-iteration", once, f"{[ast.unparse(m.ast) for m in incs]}", "" if once else "each released training iteration must advance the epoch counter exactly once (the window switch compares it with the threshold)", loc(mi, lp.ast))
+    other_incs = [m for m in cfg.nodes if m.id in body and m.id not in lbody for d in m.defs if d.name == epoch_var]
+    for m in incs + other_incs:
+        if amount(m) is None:
+            raise AnalysisError(f"{TQ}: `{short(m.ast, 50)}` - update of the epoch counter not understood (unrecognised form)")
+    if not incs and other_incs:
+        raise AnalysisError(f"{TQ}: the epoch counter `{epoch_var}` is advanced by `{short(other_incs[0].ast, 50)}` outside the release loop and not inside it (unrecognised form)")
+    once = bool(incs) and all(amount(m) == 1 for m in incs) and _once_per_iteration(cfg, lp.id, [m.id for m in incs])
+    ck.ob("R5-release-loop", TQ, "one-epoch-per-iteration", once, f"{[ast.unparse(m.ast) for m in incs]}" if incs else f"`{epoch_var}` is not written anywhere in the main loop",
+          "" if once else "each released training iteration must advance the epoch counter exactly once (the window switch compares it with the threshold)", loc(mi, lp.ast))
     once_t = _once_per_iteration(cfg, lp.id, [m.id for m in ts_nodes])
     ck.ob("R5-release-loop", TQ, "one-train-step-per-iteration", once_t, f"{len(ts_nodes)} _train_step call(s) in the loop body", "" if once_t else "each iteration must perform exactly one training step", loc(mi, lp.ast))
     # epoch increments elsewhere in the loop would shift the window switch
-    other_incs = [m for m in cfg.nodes if m.id in body and m.id not in lbody for d in m.defs if d.name == epoch_var]
-    ck.ob("R5-release-loop", TQ, "epoch-only-in-release-loop", not other_incs, f"{len(other_incs)} other update(s) of `{epoch_var}` in the main loop", "" if not other_incs else "the epoch counter counts training iterations only", loc(mi, lp.ast))
+    shifting = [m for m in other_incs if amount(m) != 0]
+    ck.ob("R5-release-loop", TQ, "epoch-only-in-release-loop", not shifting, f"{len(shifting)} other update(s) of `{epoch_var}` in the main loop" + (f": `{short(shifting[0].ast, 40)}`" if shifting else ""), "" if not shifting else "the epoch counter counts training iterations only", loc(mi, lp.ast))
     # ---- checkpoint copy -------------------------------------------------------------------------------------------------------------
     from .c06 import _helper_calls
     from ..resolve import Resolver
     res = Resolver(repo)
     hcalls = _helper_calls(repo, res, fn, cfg)
     ck.need(len(hcalls) >= 1, f"{TQ}: checkpoint copy not found (anchor vanished)")
-    tsfn = repo.func("rl_blox.algorithm.td7._train_step")
-    tcall = next(x for m in ts_nodes[:1] for x in ast.walk(m.ast) if isinstance(x, ast.Call) and isinstance(x.func, (ast.Name, ast.Attribute)) and repo.resolve_expr(mi, x.func) == "rl_blox.algorithm.td7._train_step")
-    trained = bind_call(tsfn, tcall).get("policy")
+    tsq = "rl_blox.algorithm.td7._train_step"
+    tsfn = repo.func(tsq)
+    tcall = next(x for m in ts_nodes[:1] for x in ast.walk(m.ast) if isinstance(x, ast.Call) and isinstance(x.func, (ast.Name, ast.Attribute)) and repo.resolve_expr(mi, x.func) == tsq)
+    pol_p = _current_param(tsfn, tsq, "policy")
+    trained = bind_call(tsfn, tcall).get(pol_p) if pol_p is not None else None
     # the checkpoint copy is the hard copy whose source is the trained policy as a whole (other target updates of the loop are C06's)
     cps = [h for h in hcalls if trained is not None and ast.dump(h[3][0]) == ast.dump(trained)]
     if not cps:
@@ -434,21 +713,42 @@ def _td7_loop(ck, repo, nf, afn):
             bn = cfg.nodes[bnode]
             if bn.kind == "test" and isinstance(bn.ast, ast.If):
                 gl += [(t, v, bnode) for t, v in cfg._lits(bn.ast.test, lab, bnode)]
-        flag_ok, stale = False, []
+        # every guard literal is read by the provenance of its operand: position 0 of this step's assessment (the flag), another position, data that
+        # has nothing to do with the assessment, or something that is not read
+        flag_ok, evidence, witness, unread = False, "", None, []
         for t, v, bnode in gl:
-            if not (v and t.isidentifier()):
+            try:
+                e = _strip_truth(ast.parse(t, mode="eval").body)
+            except SyntaxError:
+                unread.append(t)
                 continue
-            origins = {_origin_def(cfg, d, c) for d in cfg.defs_of(bnode, t)}
-            if origins == {0} and cfg.dominates(n.id, hn):
-                flag_ok = True
-            elif 0 in origins:
-                stale.append(t)
-        why = ""
-        if not flag_ok:
-            why = "the checkpoint must be overwritten only when the assessment of this step returned the flag (position 0 of its result)"
-            if stale:
-                why = f"the flag `{stale[0]}` read at the copy is not only the result of this step's assessment: a stale True from an earlier window overwrites the checkpoint with an unassessed policy"
-        ck.ob("R5-release-loop", TQ, "checkpoint-copy-guard", flag_ok, f"`{short(hc)}` under {[t for t, v, _ in gl if v]}", why, loc(mi, hc))
+            pv = _provenance(cfg, e, bnode, c)
+            if pv is None or (not pv[0] and not pv[1]):
+                if _reads_call(cfg, e, bnode, c, {st_arg.id}):
+                    unread.append(t)
+                continue
+            positions, plain, dnodes = pv
+            if not positions:
+                continue      # constants only
+            if not plain:
+                unread.append(t)
+            elif positions == {0} and v:
+                # the value read is this step's: no way from the loop header to the test that avoids every definition of the variable
+                stale = cfg.paths_avoiding(L.outer_header, bnode, dnodes)
+                if stale is None:
+                    flag_ok = True
+                elif not evidence:
+                    evidence, witness = f"the flag `{t}` read at the copy is not only the result of this step's assessment: a stale True from an earlier window overwrites the checkpoint with an unassessed policy", stale
+            elif 0 not in positions or not v:
+                evidence = evidence or f"the copy is conditioned on `{'' if v else 'not '}{t}`, which holds position {sorted(positions)} of the assessment result"
+            else:
+                unread.append(t)
+        if not flag_ok and not evidence:
+            if unread:
+                raise AnalysisError(f"{TQ}: the guard `{unread[0][:60]}` of the checkpoint copy cannot be related to the result of the assessment (unrecognised form)")
+            evidence = "none of the conditions of the copy depends on the result of the assessment"
+        why = "" if flag_ok else f"the checkpoint must be overwritten only when the assessment of this step returned the flag (position 0 of its result): {evidence}"
+        ck.ob("R5-release-loop", TQ, "checkpoint-copy-guard", flag_ok, f"`{short(hc)}` under {[t if v else 'not ' + t for t, v, _ in gl]}", why, loc(mi, hc), cfg.describe_path(witness) if (witness and not flag_ok) else None)
         src_ok = trained is not None and ast.dump(oe) == ast.dump(trained)
         if not src_ok and not (isinstance(oe, ast.Name) and isinstance(trained, ast.Name)):
             raise AnalysisError(f"{TQ}: source of the checkpoint copy `{short(oe)}` not comparable with the trained policy")
@@ -514,6 +814,16 @@ MUTANTS = [
     {"id": "c15-td7-assess-on-termination-only", "file": _T, "rule": "R5", "find": "            if (termination or truncated) and use_checkpoints:", "replace": "            if termination and use_checkpoints:"},
     {"id": "c15-td7-checkpoint-unguarded", "file": _T, "rule": "R5", "find": "                if update_checkpoint:\n                    hard_target_net_update(policy, checkpoint)", "replace": "                if training_steps:\n                    hard_target_net_update(policy, checkpoint)"},
     {"id": "c15-td7-return-for-length", "file": _T, "rule": "R5", "find": "                        steps_per_episode,\n                        accumulated_reward,\n                        epoch,", "replace": "                        accumulated_reward,\n                        steps_per_episode,\n                        epoch,"},
+    {"id": "c15-td7-config-swapped", "file": _T, "rule": "R5", "find": "                        max_episodes_when_checkpointing,\n                        steps_before_checkpointing,\n                    )\n                )\n", "replace": "                        steps_before_checkpointing,\n                        max_episodes_when_checkpointing,\n                    )\n                )\n"},
+    {"id": "c15-td7-state-recreated", "file": _T, "rule": "R5", "find": "            if (termination or truncated) and use_checkpoints:\n", "replace": "            if (termination or truncated) and use_checkpoints:\n                checkpoint_state = CheckpointState()\n"},
+    {"id": "c15-td7-epoch-per-env-step", "file": _T, "rule": "R5", "find": "        steps_per_episode += 1\n", "replace": "        steps_per_episode += 1\n        epoch += 1\n"},
+    {"id": "c15-td7-default-one", "file": _T, "rule": "R5", "find": "            training_steps = 0 if use_checkpoints else 1\n", "replace": "            training_steps = 1\n"},
+    {"id": "c15-td7-no-default", "file": _T, "rule": "R5", "find": "            training_steps = 0 if use_checkpoints else 1\n", "replace": ""},
+    {"id": "c15-td7-release-skipped-for-one", "file": _T, "rule": "R5", "find": "            for delayed_train_step_idx in range(1, training_steps + 1):\n", "replace": "            if training_steps > 1:\n              for delayed_train_step_idx in range(1, training_steps + 1):\n"},
+    {"id": "c15-td7-flag-inverted", "file": _T, "rule": "R5", "find": "                if update_checkpoint:\n                    hard_target_net_update(policy, checkpoint)", "replace": "                if not update_checkpoint:\n                    hard_target_net_update(policy, checkpoint)"},
+    {"id": "c15-td7-copy-unconditional", "file": _T, "rule": "R5", "find": "                if update_checkpoint:\n                    hard_target_net_update(policy, checkpoint)", "replace": "                if True:\n                    hard_target_net_update(policy, checkpoint)"},
+    {"id": "c15-td7-countdown-off", "file": _T, "rule": "R5", "find": "            for delayed_train_step_idx in range(1, training_steps + 1):", "replace": "            for delayed_train_step_idx in range(training_steps, 1, -1):"},
+    {"id": "c15-td7-assess-every-step", "file": _T, "rule": "R5", "find": "            if (termination or truncated) and use_checkpoints:", "replace": "            if use_checkpoints:"},
 ]
 BENIGN = [
     {"id": "c15-b-branchy-min", "file": _C, "find": "    checkpoint_state.min_return = min(\n        checkpoint_state.min_return, episode_return\n    )", "replace": "    if episode_return < checkpoint_state.min_return:\n        checkpoint_state.min_return = episode_return"},
@@ -527,4 +837,22 @@ BENIGN = [
     {"id": "c15-b-local-ts", "file": _C, "nth": 0, "find": "        training_steps = checkpoint_state.timesteps_since_upate\n", "replace": "        collected = checkpoint_state.timesteps_since_upate\n        training_steps = collected\n"},
     {"id": "c15-b-reset-order", "file": _C, "find": "        checkpoint_state.episodes_since_udpate = 0\n        checkpoint_state.timesteps_since_upate = 0\n", "replace": "        checkpoint_state.timesteps_since_upate = 0\n        checkpoint_state.episodes_since_udpate = 0\n"},
     {"id": "c15-b-td7-range0", "file": _T, "find": "            for delayed_train_step_idx in range(1, training_steps + 1):", "replace": "            for delayed_train_step_idx in range(2, training_steps + 2):"},
+    # --- refactoring kinds the train_td7 rules were made tolerant to (audit) ---
+    {"id": "c15-b-td7-zero-trip-guard", "file": _T, "find": "            for delayed_train_step_idx in range(1, training_steps + 1):\n", "replace": "            if training_steps > 0:\n              for delayed_train_step_idx in range(1, training_steps + 1):\n"},
+    {"id": "c15-b-td7-flag-subscript", "file": _T, "edits": [("                update_checkpoint, training_steps = (\n                    assess_performance_and_checkpoint(", "                assessment = (\n                    assess_performance_and_checkpoint("),
+        ("                if update_checkpoint:\n                    hard_target_net_update(policy, checkpoint)", "                training_steps = assessment[1]\n                if assessment[0] is True:\n                    hard_target_net_update(policy, checkpoint)")]},
+    {"id": "c15-b-td7-flag-default-each-step", "file": _T, "edits": [("            training_steps = 0 if use_checkpoints else 1\n", "            update_checkpoint, training_steps = False, (0 if use_checkpoints else 1)\n"),
+        ("                if update_checkpoint:\n                    hard_target_net_update(policy, checkpoint)\n                    epochs = {\n                        \"actor_checkpoint\": checkpoint.actor,\n                        \"fixed_embedding_checkpoint\": checkpoint.embedding,\n                    }\n                    if logger is not None:\n                        for k, v in epochs.items():\n                            logger.record_epoch(k, v, step=step + 1)\n                if logger is not None:\n                    for k, v in checkpoint_state.__dict__.items():\n                        logger.record_stat(k, v, step=step + 1)\n",
+         "                if logger is not None:\n                    for k, v in checkpoint_state.__dict__.items():\n                        logger.record_stat(k, v, step=step + 1)\n            if update_checkpoint:\n                hard_target_net_update(policy, checkpoint)\n                if logger is not None:\n                    logger.record_epoch(\"actor_checkpoint\", checkpoint.actor, step=step + 1)\n                    logger.record_epoch(\"fixed_embedding_checkpoint\", checkpoint.embedding, step=step + 1)\n")]},
+    {"id": "c15-b-td7-default-then-override", "file": _T, "find": "            training_steps = 0 if use_checkpoints else 1\n", "replace": "            training_steps = 1\n            if use_checkpoints:\n                training_steps = 0\n"},
+    {"id": "c15-b-td7-config-through-locals", "file": _T, "edits": [("    step = global_step\n", "    step = global_step\n    decay = float(reset_weight)\n    window = max_episodes_when_checkpointing\n"),
+        ("                        reset_weight,\n                        max_episodes_when_checkpointing,\n                        steps_before_checkpointing,\n", "                        steps_before_checkpointing=int(steps_before_checkpointing),\n                        max_episodes_when_checkpointing=window,\n                        reset_weight=decay,\n")]},
+    {"id": "c15-b-td7-counter-forms", "file": _T, "edits": [("        steps_per_episode += 1\n        accumulated_reward += reward\n", "        steps_per_episode = steps_per_episode + 1\n        accumulated_reward += float(reward)\n"),
+        ("            steps_per_episode = 0\n            accumulated_reward = 0.0\n", "            steps_per_episode, accumulated_reward = 0, 0.0\n"),
+        ("                        steps_per_episode,\n                        accumulated_reward,\n                        epoch,", "                        int(steps_per_episode),\n                        float(accumulated_reward),\n                        epoch,"),
+        ("                epoch += 1\n                key, sampling_key = jax.random.split(key, 2)\n", "                epoch = epoch + 1\n                key, sampling_key = jax.random.split(key, 2)\n")]},
+    {"id": "c15-b-td7-state-two-branches", "file": _T, "find": "    checkpoint_state = CheckpointState()\n", "replace": "    if use_checkpoints:\n        checkpoint_state = CheckpointState()\n    else:\n        checkpoint_state = None\n"},
+    {"id": "c15-b-td7-countdown", "file": _T, "edits": [("            for delayed_train_step_idx in range(1, training_steps + 1):\n", "            for delayed_train_step_idx in range(training_steps, 0, -1):\n"), ("                        step + 1 - training_steps + delayed_train_step_idx\n", "                        step + 2 - delayed_train_step_idx\n")]},
+    {"id": "c15-b-td7-countdown-while", "file": _T, "edits": [("            for delayed_train_step_idx in range(1, training_steps + 1):\n                epoch += 1\n", "            pending = training_steps\n            while pending > 0:\n                pending -= 1\n                delayed_train_step_idx = training_steps - pending\n                epoch += 1\n")]},
+    {"id": "c15-b-return-bool-int", "file": _C, "find": "    return update_checkpoint, training_steps\n", "replace": "    return bool(update_checkpoint), int(training_steps)\n"},
 ]
